@@ -47,6 +47,23 @@ try:
     shutil.copytree(seed, os.path.join(wt, "seed", name), dirs_exist_ok=True)
     if os.path.isdir(os.path.join(seed, "sim")):  # helper tree shared by a seeding agent's demos (expected at seed/sim)
         shutil.copytree(os.path.join(seed, "sim"), os.path.join(wt, "seed", "sim"), dirs_exist_ok=True)
+    def relocate():
+        # demonstration scripts may name the agent's own worktree: point them at this one
+        for dp, _, fns in os.walk(os.path.join(wt, "seed")):
+            for fn in fns:
+                fp = os.path.join(dp, fn)
+                try:
+                    if os.path.getsize(fp) > 2 << 20:
+                        continue
+                    t = open(fp, encoding="utf-8").read()
+                except (OSError, UnicodeDecodeError):
+                    continue
+                t2 = t
+                for pre in ("/tmp/seed3-", "/tmp/seed2-", "/tmp/seed-"):
+                    t2 = t2.replace(pre + meta["property"], wt)
+                if t2 != t:
+                    open(fp, "w", encoding="utf-8").write(t2)
+    relocate()
     dc = demo_cmd()
     res["demo_cmd_used"] = dc
     if not skip_demo:
@@ -57,6 +74,7 @@ try:
         shutil.copytree(seed, os.path.join(wt, "seed", name), dirs_exist_ok=True)
         if os.path.isdir(os.path.join(seed, "sim")):
             shutil.copytree(os.path.join(seed, "sim"), os.path.join(wt, "seed", "sim"), dirs_exist_ok=True)
+        relocate()
     rc, out = sh("git apply seed/%s/patch.diff" % name, cwd=wt)
     res["patch_applies"] = rc == 0
     if rc != 0:
